@@ -358,7 +358,7 @@ func bigUint(n uint64) *big.Float { return new(big.Float).SetUint64(n) }
 func genTFScalar(t *rapid.T, f *spec.Field, typ tftypes.Type, label string) tftypes.Value {
 	switch {
 	case f.Kind == spec.KTime:
-		return tftypes.NewValue(typ, pick(t, timePool, label).UTC().Format(time.RFC3339Nano))
+		return tftypes.NewValue(typ, pick(t, timePool, label).Format(time.RFC3339Nano)) // offsets kept
 	case f.Kind == spec.KDuration || f.IsCastDuration():
 		return tftypes.NewValue(typ, strconv.FormatInt(pick(t, durPool, label), 10))
 	}
